@@ -120,7 +120,7 @@ impl<T> Mutex<ChannelInternal<T>> {
     #[verifier::external_body]
     pub fn lock(&self, Tracked(fx): Tracked<&mut Fx<T>>) -> (g: MutexGuard<'_, ChannelInternal<T>>)
         requires may_wait_lock(), !old(fx).held,
-        ensures wf(g.view()),
+        ensures wf(g.view()), a3(g.view()),
             final(fx).cs == old(fx).cs.push(CS { pre: g.view(), post: g.view() }),
             final(fx).same_effects(*old(fx)), final(fx).held, final(fx).listed == Set::<SignalTerminator<T>>::empty(),
     { unimplemented!() }
@@ -129,7 +129,7 @@ impl<T> Mutex<ChannelInternal<T>> {
     pub fn try_lock(&self, Tracked(fx): Tracked<&mut Fx<T>>) -> (r: Option<MutexGuard<'_, ChannelInternal<T>>>)
         requires !old(fx).held,
         ensures
-            r matches Some(g) ==> wf(g.view()) && final(fx).cs == old(fx).cs.push(CS { pre: g.view(), post: g.view() }) && final(fx).held,
+            r matches Some(g) ==> wf(g.view()) && a3(g.view()) && final(fx).cs == old(fx).cs.push(CS { pre: g.view(), post: g.view() }) && final(fx).held,
             r is None ==> final(fx).cs == old(fx).cs && !final(fx).held,
             final(fx).same_effects(*old(fx)), final(fx).listed == Set::<SignalTerminator<T>>::empty(),
     { unimplemented!() }
@@ -142,11 +142,33 @@ impl<T> Mutex<ChannelInternal<T>> {
     pub uninterp spec fn init(&self) -> ChannelInternal<T>;
 }
 
+/// A3: fewer than 2^32-1 live handles per side (assumed at every acquisition)
+pub open spec fn a3<T>(c: ChannelInternal<T>) -> bool { c.send_count < u32::MAX && c.recv_count < u32::MAX }
+
+/// R5 (handle ledger, DESIGN.md §5): a thread inside a method of a live sender-side handle sees
+/// send_count >= 1 unless the channel is closed.  It is the conclusion of the count ledger (C12) and is
+/// imported, not proved, at the one place it is needed: a sender registering itself as a waiter.
+#[verifier::external_body]
+pub proof fn axiom_r5_sender_live<T>(c: ChannelInternal<T>)
+    requires c.recv_count != 0,
+    ensures c.send_count != 0,
+{}
+
+/// R2 (signal protocol): a waiter that its owner removes from the wait list under the lock is never
+/// completed by anyone.  Invoked (by a kweave hint) exactly where `cancel_*_signal` removes the entry.
+#[verifier::external_body]
+pub proof fn axiom_owner_cancels<T>(list: Seq<SignalTerminator<T>>, i: int, sig: &Signal<T>)
+    requires 0 <= i < list.len(), list[i] == sig.term(),
+    ensures !sig.delivered(),
+{}
+
 pub assume_specification<T> [core::mem::drop] (_0: T);
 
 // ------------------------------------------------------------------ T2-T8: signals
 pub open spec fn big<T>() -> bool { size_of::<T>() > size_of::<*mut T>() }
 
+/// prophecy: the waiter behind this terminator is completed with success (state UNLOCKED)
+pub uninterp spec fn t_delivered<T>(t: SignalTerminator<T>) -> bool;
 /// value a blocked *sender* lends (what `recv` on its terminator returns)
 pub uninterp spec fn payload<T>(t: SignalTerminator<T>) -> T;
 /// value a blocked *receiver* ends up with (what a peer's `send` on its terminator wrote)
@@ -158,13 +180,20 @@ pub uninterp spec fn ptr_filled<T>(p: *mut T) -> bool;
 /// the slot `p` was obtained from a manually managed (MaybeUninit) location
 pub uninterp spec fn ptr_manual<T>(p: *mut T) -> bool;
 
+/// X9 stand-in for the coercion `&mut local as *mut T`: the address of a plain local that Rust will
+/// drop again when it goes out of scope -- not a manually managed slot
+#[verifier::external_body]
+pub fn lend_plain_local<T>(x: &mut T) -> (r: *mut T)
+    ensures !ptr_manual(r), ptr_val(r) == *old(x), *final(x) == *old(x)
+{ unimplemented!() }
+
 impl<T> KanalPtr<T> {
     pub uninterp spec fn slot(&self) -> *mut T;
     pub uninterp spec fn lent(&self) -> T;
     pub uninterp spec fn has_value(&self) -> bool;
     #[verifier::external_body]
     pub fn new_from(addr: *mut T) -> (r: Self)
-        requires ptr_manual(addr),
+        requires /*@tag:O-slot-manual C05 C13*/ ptr_manual(addr),
         ensures r.slot() == addr, r.lent() == ptr_val(addr), r.has_value()
     { unimplemented!() }
     #[verifier::external_body]
@@ -183,7 +212,9 @@ impl<T> Signal<T> {
     /// identity of the signal as the wait list sees it
     pub uninterp spec fn term(&self) -> SignalTerminator<T>;
     /// prophecy: this signal ends in state UNLOCKED (a peer completed it)
-    pub uninterp spec fn delivered(&self) -> bool;
+    pub open spec fn delivered(&self) -> bool { t_delivered(self.term()) }
+    /// a wait on this signal has observed the final state TERMINATED
+    pub uninterp spec fn seen_terminated(&self) -> bool;
     pub uninterp spec fn slot(&self) -> *mut T;
     /// constructed (state LOCKED) and never published since
     pub uninterp spec fn fresh(&self) -> bool;
@@ -210,10 +241,10 @@ impl<T> Signal<T> {
         requires may_wait_peer(),
         ensures b ==> self.delivered(),
             b && big::<T>() ==> ptr_filled(self.slot()) && ptr_val(self.slot()) == received(self.term()),
-            !b ==> reached(until) || !self.delivered(),
+            !b ==> reached(until) || self.seen_terminated(),
     { unimplemented!() }
     #[verifier::external_body]
-    pub fn is_terminated(&self) -> (b: bool) ensures b ==> !self.delivered() { unimplemented!() }
+    pub fn is_terminated(&self) -> (b: bool) ensures b ==> !self.delivered(), self.seen_terminated() ==> b { unimplemented!() }
     /// T8 (receiver side, small T): the value is in the signal itself
     #[verifier::external_body]
     pub unsafe fn assume_init(&self) -> (r: T)
@@ -264,10 +295,19 @@ impl Instant {
     #[verifier::external_body]
     pub fn checked_add(&self, d: Duration) -> (r: Option<Instant>)
         ensures self.representable(d) ==> r == Some(self.plus(d)) { unimplemented!() }
-    /// `now > deadline` : if it holds the deadline has been reached (reached is downward closed)
+}
+impl PartialEq for Instant {
     #[verifier::external_body]
-    pub fn gt(&self, other: &Instant) -> (b: bool)
-        ensures b && reached(*self) ==> reached(*other) { unimplemented!() }
+    fn eq(&self, other: &Self) -> bool { unimplemented!() }
+}
+/// `reached` is downward closed: if a reached instant is later than `d`, `d` has been reached
+impl PartialOrd for Instant {
+    #[verifier::external_body]
+    fn partial_cmp(&self, other: &Self) -> Option<core::cmp::Ordering> { unimplemented!() }
+    #[verifier::external_body]
+    fn gt(&self, other: &Self) -> (b: bool) ensures b && reached(*self) ==> reached(*other) { unimplemented!() }
+    #[verifier::external_body]
+    fn lt(&self, other: &Self) -> (b: bool) ensures !b && reached(*self) ==> reached(*other) { unimplemented!() }
 }
 
 // ------------------------------------------------------------------ std functions vstd does not specify
@@ -285,6 +325,11 @@ pub assume_specification<T> [core::mem::MaybeUninit::<T>::assume_init_drop] (_0:
     ensures final(_0).mem_contents() is Uninit;
 pub assume_specification<T, A: core::alloc::Allocator> [alloc::vec::Vec::<T, A>::capacity] (_0: &alloc::vec::Vec<T, A>) -> (c: usize)
     ensures c >= _0@.len();
+
+pub assume_specification<T, A: core::alloc::Allocator> [alloc::collections::VecDeque::<T, A>::capacity] (_0: &alloc::collections::VecDeque<T, A>) -> (c: usize)
+    ensures c >= _0@.len();
+pub assume_specification<T, A: core::alloc::Allocator> [alloc::collections::VecDeque::<T, A>::is_empty] (_0: &alloc::collections::VecDeque<T, A>) -> (b: bool)
+    ensures b == (_0@.len() == 0);
 
 /*@@WOVEN@@*/
 
